@@ -93,6 +93,12 @@ func Make(format string, r *rand.Rand) Sample {
 					s.Tokens = append(s.Tokens, t)
 				}
 			}
+			// one row of the other cell kinds: a number, a number behind a formula, a boolean, an error
+			sh.Cells = append(sh.Cells,
+				ooxml.XCell{Row: 5, Col: 0, Kind: ooxml.XNumber, V: fmt.Sprint(1000 + r.Intn(9000))},
+				ooxml.XCell{Row: 5, Col: 1, Kind: ooxml.XFormulaNum, V: "0.25"},
+				ooxml.XCell{Row: 5, Col: 2, Kind: ooxml.XBool, V: "1"},
+				ooxml.XCell{Row: 5, Col: 3, Kind: ooxml.XError, V: "#DIV/0!"})
 			if i == 0 {
 				// a merged region below the data whose covered cells are not stored
 				t := tk.Next()
